@@ -14,7 +14,7 @@ ANCHORS = ['phylib.io.model:TemplateModel.get_amplitudes_true', 'phylib.io.model
            'phylib.io.model:TemplateModel.get_depths']
 RULE = ('Each case = a generated dense dataset (random templates / whitening / amplitudes / features; a '
         'template without spikes at the first, a middle or the LAST position or none; clusters equal to, or '
-        'curated from, the templates; sampling rate 1 / 100 / 30000; dense, sparse or absent features, some '
+        'curated from, the templates; sampling rate 1 / 100 / 30000; an optional template_scaling entry in params.py; dense, sparse or absent features, some '
         'rows all-negative so that the positive part vanishes) loaded with the real load_model. Judged against '
         'the direct formulas on the arrays the harness wrote: get_amplitudes_true(factor in {1, 2.5, 1e-6}, '
         'use in {templates, clusters}) - scaled spike amplitudes, per-id means with NaN exactly at spikeless '
@@ -52,6 +52,8 @@ def run_case(case, ctx):
                 features=['none', 'dense', 'sparse', 'sparse'][int(rng.integers(0, 4))],
                 probes=bool(rng.integers(0, 2)), rate=[1., 100., 30000.][int(rng.integers(0, 3))], ncdat_extra=0)
     spec = random_spec(rng, **opts)
+    if rng.random() < 0.25:
+        spec.notes['template_scaling'] = [8.0, 0.5][int(rng.integers(0, 2))]   # params.py option; not part of the amplitude formulas
     if spec.pc_features is not None:
         neg = rng.permutation(spec.n_spikes)[:3]
         spec.pc_features[neg, 0, :] = -np.abs(spec.pc_features[neg, 0, :]) - 0.1   # positive part vanishes
